@@ -65,31 +65,44 @@ def run(ctx):
                 if suf not in fams[g] or suf not in fams[ref]:
                     continue
                 a, b = fams[g][suf], fams[ref][suf]
-                ta = subst(sq(a['body']), pairs)
-                tb = sq(b['body'])
+                ta = subst(sq(sx.alpha(sx.inline_literal_lets(a['body']))), pairs)
+                tb = sq(sx.alpha(sx.inline_literal_lets(b['body'])))
                 sa = subst(sq({'k': 'tuple', 'e': []}) + a['sig']['rets'] + str([p.get('tys') for p in a['sig']['params']]), pairs)
                 sb = sq({'k': 'tuple', 'e': []}) + b['sig']['rets'] + str([p.get('tys') for p in b['sig']['params']])
                 w1.inst('sibling:parse_%s%s~parse_%s%s' % (g, suf, ref, suf), {'a': a['name'], 'b': b['name'], 'equal_modulo_entry': ta == tb})
-                if ta != tb or sa != sb:
+                if sa != sb:
                     w1.fail('%s:siblings-differ:parse_%s%s' % (API, g, suf), where(a),
-                            '%s and %s differ beyond the grammar entry they call' % (a['name'], b['name']))
+                            '%s and %s have different signatures' % (a['name'], b['name']))
+                elif ta != tb:
+                    # syntactically different bodies may still behave alike (one sibling refactored): the semantic obligations
+                    # on each function separately (X9 argument threading, W2, W3, W4, wrapper shape) decide; the cross-check
+                    # itself is reported as undecided
+                    w1.undecided('%s:siblings-differ:parse_%s%s' % (API, g, suf), where(a),
+                                 '%s and %s are no longer the same code up to the entry they call; each is judged on its own' % (a['name'], b['name']))
     # shape of the file / string wrappers
     for g in names:
         for suf, pp_name in (('', 'preprocess'), ('_str', 'preprocess_str')):
             f = fams[g].get(suf)
             if f is None:
                 continue
-            st = f['body']['stmts']
+            st = sx.inline_literal_lets(f['body'])['stmts']
             w1.inst('shape:parse_%s%s' % (g, suf), {'fn': f['name'], 'statements': [sq(s)[:60] for s in st]})
-            ok = len(st) == 2 and st[0]['k'] == 'let' and st[0]['init'].get('k') == 'try' and sx.is_call(st[0]['init']['e'], pp_name) \
-                and st[1]['k'] == 'expr' and sx.is_call(st[1]['e'], 'parse_%s_pp' % g)
-            if ok:
-                ids = [x for x in sx.pat_idents(st[0]['pat'])]
-                args = [sq(a) for a in st[1]['e']['args']]
-                ok = args == ids + ['allow_incomplete']
-            if not ok:
-                w1.fail('%s:wrapper-shape:parse_%s%s' % (API, g, suf), where(f),
-                        '%s must be exactly: let (text, defines) = %s(..)?; parse_%s_pp(text, defines, allow_incomplete)' % (f['name'], pp_name, g))
+            lets = [x for x in st if x['k'] == 'let' and 'init' in x and x['init'].get('k') == 'try' and sx.is_call(x['init']['e'], pp_name)]
+            calls = [n for n in sx.walk(f['body']) if sx.is_call(n) and n['f']['p'].split('::')[-1].startswith('parse_') and n['f']['p'].split('::')[-1].endswith('_pp')]
+            if len(lets) == 1 and len(calls) == 1:
+                ids = [x for x in sx.pat_idents(lets[0]['pat'])]
+                args = [sq(a) for a in calls[0]['args']]
+                callee_ = calls[0]['f']['p'].split('::')[-1]
+                if callee_ != 'parse_%s_pp' % g:
+                    w1.fail('%s:wrapper-shape:parse_%s%s' % (API, g, suf), where(f), '%s hands the preprocessed text to %s, the other grammar\'s parser' % (f['name'], callee_))
+                elif args[:2] != ids[:2] and len(ids) == 2:
+                    w1.fail('%s:wrapper-shape:parse_%s%s' % (API, g, suf), where(f),
+                            '%s must pass the (text, defines) pair returned by %s to parse_%s_pp in that order; it passes %s' % (f['name'], pp_name, g, args))
+                elif len(st) != 2:
+                    w1.undecided('%s:wrapper-shape:parse_%s%s' % (API, g, suf), where(f), '%s has additional statements around preprocess / parse_%s_pp' % (f['name'], g))
+            else:
+                w1.undecided('%s:wrapper-shape:parse_%s%s' % (API, g, suf), where(f),
+                             '%s is not of the form let (text, defines) = %s(..)?; parse_%s_pp(text, defines, allow_incomplete)' % (f['name'], pp_name, g))
     # ---- W2 / W3 / W4 on parse_*_pp
     g_rules = ctx.grammar
     for g in names:
@@ -97,6 +110,9 @@ def run(ctx):
         if f is None:
             continue
         ifs = [n for n in sx.walk(f['body']) if n.get('k') == 'if' and sx.is_path(n['c'], 'allow_incomplete')]
+        negs = [n for n in sx.walk(f['body']) if n.get('k') == 'if' and n['c'].get('k') == 'unary' and n['c']['op'] == '!' and sx.is_path(n['c']['e'], 'allow_incomplete') and 'e' in n]
+        if not ifs and len(negs) == 1:
+            ifs = [{'k': 'if', 'c': negs[0]['c']['e'], 't': negs[0]['e'], 'e': negs[0]['t'], 'l': negs[0].get('l')}]
         w2.inst('switch:parse_%s_pp' % g)
         if len(ifs) != 1 or 'e' not in ifs[0]:
             w2.fail('%s:parse_%s_pp:switch' % (API, g), where(f), 'parse_%s_pp must choose the entry with `if allow_incomplete {..} else {..}`' % g)
@@ -123,14 +139,47 @@ def run(ctx):
             w4.fail('%s:parse_%s_pp:span-source' % (API, g), where(f), 'the parser input must be text.text() of the PreprocessedText that is stored in the tree')
         if len(lits) != 1 or {x['n']: sq(x['e']) for x in lits[0]['fields']}.get('text') != 'text':
             w4.fail('%s:parse_%s_pp:tree-text' % (API, g), where(f), 'SyntaxTree.text must be the very PreprocessedText whose text was parsed')
-        # W3: Err(x) => position -> text.origin(pos) -> Error::Parse(origin)
-        txt = sq(f['body'])
-        w3.inst('parse-error:parse_%s_pp' % g)
-        ok = 'Err(Error::Parse(origin))' in txt and 'text.origin(pos)' in txt and txt.count('error_position(&e)') >= 1 \
-            and 'Some((origin.0.clone(),origin.1))' in txt
-        if not ok:
-            w3.fail('%s:parse_%s_pp:error-mapping' % (API, g), where(f),
-                    'a parse failure must become Error::Parse(text.origin(error_position(e))) — position mapped through the origin map of the same text')
+        # W3: Err(x) => position -> text.origin(pos) -> Error::Parse(origin)      (derives-from analysis, tri-state)
+        from vlib.taint import Taint
+        allf = dict(fns)
+        for (ty_, nm_, tr_), mf in methods.items():
+            allf.setdefault(nm_, mf)
+        tparams = [sx.pat_idents(p_['pat'])[0] for p_ in f['sig']['params'] if p_.get('k') == 'typed' and 'PreprocessedText' in p_['tys']]
+
+        def sources(e_, tof):
+            if sx.is_call(e_, 'error_position'):
+                return {'pos'}
+            if e_.get('k') == 'mcall' and e_['m'] == 'origin' and len(e_['args']) == 1:
+                rt = tof(e_['recv'])
+                at = tof(e_['args'][0])
+                if 'text' in rt and 'pos' in at:
+                    return {'origin'}
+                if 'text' in rt:
+                    return {'origin-of-constant'}
+                return {'origin-of-other-text'}
+            return None
+        ta = Taint(allf, sources)
+        ta.watch = lambda c_: c_['f']['p'].endswith('Error::Parse') and len(c_['args']) == 1
+        env0 = {tp: {'text'} for tp in tparams}
+        env0['self'] = set()
+        ta.block(f['body'], env0)
+        errs = ta.hits
+        w3.inst('parse-error:parse_%s_pp' % g, {'sites': len(errs)})
+        if not errs:
+            w3.undecided('%s:parse_%s_pp:error-mapping' % (API, g), where(f), 'no Error::Parse(..) construction found in parse_%s_pp itself' % g)
+        for en, args_t in errs:
+            tt = args_t[0]
+            if 'origin' in tt:
+                continue
+            if 'origin-of-constant' in tt or 'origin-of-other-text' in tt:
+                w3.fail('%s:parse_%s_pp:error-mapping' % (API, g), where(f),
+                        'a parse failure must become Error::Parse(text.origin(error_position(e))) — position mapped through the origin map of '
+                        'the same text; here the reported origin is looked up %s' % ('at a position that does not come from the parser error'
+                                                                                      if 'origin-of-constant' in tt else 'in another text'))
+            elif sq(en['args'][0]) == 'None':
+                w3.fail('%s:parse_%s_pp:error-mapping' % (API, g), where(f), 'Error::Parse(None): the failure position is dropped')
+            else:
+                w3.undecided('%s:parse_%s_pp:error-mapping' % (API, g), where(f), 'how Error::Parse(%s) derives from the origin map is not recognised' % sq(en['args'][0])[:40])
     # SyntaxTree construction sites anywhere else
     n_lit = 0
     for name, f in list(fns.items()) + [(k[1], v) for k, v in methods.items()]:
@@ -158,40 +207,120 @@ def run(ctx):
             w3.fail('sv-parser-pp:preprocess-error-mapping', pp.where(pp.loop_fn['l']),
                     'a pp_parser failure must become Error::Preprocess(Some((path being read, error_position(e))))')
         # the mapping must not be preceded by a re-binding of `path`
-    # ---- W5
+    # ---- W5   (tri-state: OK / WRONG / UNDECIDED)
     gs = {k[1]: v for k, v in methods.items() if k[0] == 'SyntaxTree' and k[1] in ('get_str', 'get_str_trim')}
     w5.exactly('get_str_functions', len(gs), 2)
-    for name, f in gs.items():
+
+    def judge_get_str(f, trim):
         body = f['body']
-        assigns = [sq(n) for n in sx.walk(body) if n.get('k') == 'assign']
-        w5.inst(name, {'fn': name, 'assignments': assigns})
+        fors = [n for n in sx.walk(body) if n.get('k') == 'for']
+        if len(fors) != 1:
+            return 'undecided', 'expected one loop over the node\'s leaves'
+        it = sq(fors[0]['e'])
+        if '.rev()' in it:
+            return 'wrong', 'the leaves are visited in reverse order'
+        if not it.startswith('Iter::new(nodes.into())'):
+            return 'undecided', 'iteration over `%s`' % it[:40]
+        if trim and not it.endswith('.event()'):
+            return 'undecided', 'get_str_trim without the event view'
+        # the Locate binding
         loc = None
-        for n in sx.walk(body):
+        for n in sx.walk(fors[0]['body']):
             if n.get('k') == 'ts' and n['p'] == 'RefNode::Locate' and n['e'] and n['e'][0].get('k') == 'ident':
                 loc = n['e'][0]['n']
-        ok = loc is not None and 'beg=Some(%s.offset)' % loc in assigns and \
-            any(a in assigns for a in ('end=(%s.offset+%s.len)' % (loc, loc), 'end=(%s.len+%s.offset)' % (loc, loc)))
-        # beg assigned only when none yet
-        guards = [n for n in sx.walk(body) if n.get('k') == 'if' and sq(n['c']) == 'beg.is_none()']
-        ok = ok and len(guards) == 1 and any(sq(x) == 'beg=Some(%s.offset)' % loc for x in sx.walk(guards[0]['t']) if x.get('k') == 'assign')
-        sl = [n for n in sx.walk(body) if n.get('k') == 'mcall' and n['m'] in ('get_unchecked', 'get')]
-        ok = ok and len(sl) == 1 and sq(sl[0]['args'][0]) == 'beg..end' and sq(sl[0]['recv']) == 'self.text.text()'
-        fors = [n for n in sx.walk(body) if n.get('k') == 'for']
-        ok = ok and len(fors) == 1 and sq(fors[0]['e']).startswith('Iter::new(nodes.into())')
-        if not ok:
+        if loc is None:
+            return 'undecided', 'no RefNode::Locate(..) binding in the loop'
+        # the slice
+        sl = [n for n in sx.walk(body) if n.get('k') == 'mcall' and n['m'] in ('get_unchecked', 'get') and sq(n['recv']) == 'self.text.text()']
+        idx = [n for n in sx.walk(body) if n.get('k') == 'index' and sq(n['e']) == 'self.text.text()']
+        rng = None
+        if len(sl) == 1 and sl[0]['args'][0].get('k') == 'range':
+            rng = sl[0]['args'][0]
+        elif len(idx) == 1 and idx[0]['i'].get('k') == 'range':
+            rng = idx[0]['i']
+        if rng is None or rng.get('op') != '..' or 'from' not in rng or 'to' not in rng:
+            return 'undecided', 'slice expression not recognised'
+        if not sx.is_path(rng['from']) or not sx.is_path(rng['to']):
+            return 'wrong' if ('+' in sq(rng) or '-' in sq(rng)) else 'undecided', 'slice bounds `%s` are not plain variables' % sq(rng)
+        endv = rng['to']['p']
+        # assignments to the end variable inside the loop
+        ends = [n for n in sx.walk(fors[0]['body']) if n.get('k') == 'assign' and sx.is_path(n['l_'], endv)]
+        if not ends:
+            return 'undecided', 'no assignment to the end bound `%s` in the loop' % endv
+        good = ('(%s.offset+%s.len)' % (loc, loc), '(%s.len+%s.offset)' % (loc, loc))
+        for n in ends:
+            rhs = sq(n['r'])
+            if rhs not in good:
+                if rhs in ('%s.offset' % loc, '%s.len' % loc) or ('offset' in rhs and 'len' not in rhs):
+                    return 'wrong', 'the end bound is set to `%s`, not to the end (offset + len) of the leaf' % rhs
+                return 'undecided', 'end bound set to `%s`' % rhs
+        # the begin bound: set from loc.offset only while still unset
+        begv = rng['from']['p']
+        txt = sq(fors[0]['body'])
+        first_forms = ['if%s.is_none(){%s=Some(%s.offset);}' % (b_, b_, loc) for b_ in sx.bound_names(body) + [begv]] + \
+                      ['%s=%s.or(Some(%s.offset))' % (b_, b_, loc) for b_ in sx.bound_names(body) + [begv]] + \
+                      ['%s.get_or_insert(%s.offset)' % (b_, loc) for b_ in sx.bound_names(body) + [begv]]
+        if not any(ff in txt for ff in first_forms):
+            uncond = [n for n in sx.walk(fors[0]['body']) if n.get('k') == 'assign' and sq(n['r']) == 'Some(%s.offset)' % loc]
+            guarded = [n for n in sx.walk(fors[0]['body']) if n.get('k') == 'if' and 'is_none()' in sq(n['c'])]
+            if uncond and not guarded:
+                return 'wrong', 'the begin bound is overwritten by every leaf (it must keep the FIRST leaf\'s offset)'
+            return 'undecided', 'how the begin bound is initialised is not recognised'
+        if trim:
+            # leaves inside a WhiteSpace subtree are ignored: a flag set on Enter(WhiteSpace), cleared on Leave(WhiteSpace), tested for Locate
+            flags = [sq(n['l_']) for n in sx.walk(fors[0]['body']) if n.get('k') == 'assign' and sq(n['r']) in ('true', 'false')]
+            fl = set(flags)
+            if len(fl) != 1:
+                return 'undecided', 'whitespace flag not recognised'
+            flag = list(fl)[0]
+            arms = {}
+            for mm in sx.walk(fors[0]['body']):
+                if mm.get('k') == 'match':
+                    for arm in mm['arms']:
+                        arms[sq(arm['pat'])] = arm
+            ent = [a_ for p_, a_ in arms.items() if p_ == 'NodeEvent::Enter(RefNode::WhiteSpace(_))']
+            lev = [a_ for p_, a_ in arms.items() if p_ == 'NodeEvent::Leave(RefNode::WhiteSpace(_))']
+            if not ent or not lev:
+                return 'undecided', 'WhiteSpace Enter/Leave arms not recognised'
+            if '%s=true' % flag not in sq(ent[0]['body']) or '%s=false' % flag not in sq(lev[0]['body']):
+                return 'wrong', 'the whitespace flag must be set on Enter(WhiteSpace) and cleared on Leave(WhiteSpace)'
+            la = [a_ for p_, a_ in arms.items() if p_.startswith('NodeEvent::Enter(RefNode::Locate(')]
+            if not la:
+                return 'undecided', 'Locate arm not recognised'
+            g_ = sq(la[0].get('guard')) if la[0].get('guard') else ''
+            inner = sq(la[0]['body'])
+            if g_ != '!' + flag and ('if%s{continue;}' % flag) not in inner and ('if!%s{' % flag) not in inner:
+                return 'wrong', 'leaves are not filtered by the whitespace flag'
+        return 'ok', 'slice %s..%s over a forward iteration' % (begv, endv)
+    for name, f in gs.items():
+        verdict, why = judge_get_str(f, name == 'get_str_trim')
+        w5.inst(name, {'fn': name, 'verdict': verdict, 'why': why})
+        if verdict == 'wrong':
             w5.fail('%s:%s:slice' % (API, name), where(f),
-                    '%s must return self.text.text()[first leaf offset .. last visited leaf offset + len] over a forward iteration of the node' % name)
-    if len(gs) == 2:
-        # the trim variant differs only by skipping leaves inside WhiteSpace
-        t = sq(gs['get_str_trim']['body'])
-        w5.inst('trim-filter')
-        if 'NodeEvent::Enter(RefNode::WhiteSpace(_))=>{skip=true;}' not in t or 'NodeEvent::Leave(RefNode::WhiteSpace(_))=>{skip=false;}' not in t \
-                or 'NodeEvent::Enter(RefNode::Locate(x))if!skip' not in t:
-            w5.fail('%s:get_str_trim:filter' % API, where(gs['get_str_trim']), 'get_str_trim must ignore exactly the leaves between Enter and Leave of a WhiteSpace node')
+                    '%s must return self.text.text()[first leaf offset .. last visited leaf offset + len] over a forward iteration of the node: %s' % (name, why))
+        elif verdict == 'undecided':
+            w5.undecided('%s:%s:slice' % (API, name), where(f), '%s: %s' % (name, why))
     go = {k[1]: v for k, v in methods.items() if k[0] == 'SyntaxTree' and k[1] == 'get_origin'}
     w5.inst('get_origin')
-    if len(go) != 1 or sq(go['get_origin']['body']) != '{self.text.origin(locate.offset)}':
-        w5.fail('%s:get_origin' % API, '-', 'get_origin must look up the token\'s first byte: self.text.origin(locate.offset)')
+    if len(go) != 1:
+        w5.fail('%s:get_origin' % API, '-', 'get_origin not found')
+    else:
+        gtxt = sq(go['get_origin']['body'])
+        calls_ = [n for n in sx.walk(go['get_origin']['body']) if n.get('k') == 'mcall' and n['m'] == 'origin']
+        prm_ = [sx.pat_idents(p_['pat'])[0] for p_ in go['get_origin']['sig']['params'] if p_.get('k') == 'typed']
+        lp = prm_[0] if prm_ else 'locate'
+        if len(calls_) == 1:
+            a0 = sq(calls_[0]['args'][0])
+            lets_ = {sx.pat_idents(st_['pat'])[0]: sq(st_['init']) for st_ in go['get_origin']['body']['stmts'] if st_['k'] == 'let' and 'init' in st_ and st_['pat'].get('k') == 'ident'}
+            a0 = lets_.get(a0, a0)
+            if a0 == '%s.offset' % lp:
+                pass
+            elif 'len' in a0 or '+' in a0 or '-' in a0:
+                w5.fail('%s:get_origin' % API, where(go['get_origin']), 'get_origin must look up the token\'s first byte (locate.offset); it looks up `%s`' % a0)
+            else:
+                w5.undecided('%s:get_origin' % API, where(go['get_origin']), 'get_origin looks up `%s`' % a0)
+        else:
+            w5.undecided('%s:get_origin' % API, where(go['get_origin']), 'get_origin: origin lookup not recognised')
     # ---- W6: the file-reading function passes exactly the buffer it read to the string entry
     w6 = RuleResult('W6', 'the file entry preprocesses exactly the bytes it read from the file')
     nread = 0
